@@ -45,6 +45,8 @@ implVars == <<pProx, pLife, pLease, ext, att, wProx, rProx, wTotal, rTotal, wInc
 vars == <<dabsVars, implVars, steps, trail>>
 
 Lt(a, b) == a < b
+\* for configurations (a cfg file cannot write a negative number): two leases and "none announced"
+LeasesWithNone == {1100, 2500, -1}
 
 Init ==
   /\ DAbsInit
@@ -193,7 +195,7 @@ Next ==
 
 Spec == Init /\ [][Next]_vars
 Bound == steps <= MaxSteps
-View == <<dabsVars, implVars>>
+View == <<dabsVars, implVars, steps>>   \* steps kept: the bound is then exact whatever the order of exploration
 
 \* refinement facts relating the tables of the code to the abstract state
 Inv_ParticipantsAgree == \A p \in P : pProx[p] = known[p]
